@@ -77,7 +77,7 @@ def N(label, numbers):
 # ------------------------------------------------------------------------------- abstract values
 class Seg:
     def __init__(self, kind, *, text=None, src=None, clo=0, chi=0, wlo=None, whi=None, align=None, trunc=False,
-                 blank_content=False, case=None):
+                 blank_content=False, case=None, spec=None):
         self.kind = kind  # 'lit' | 'fld'
         self.text = text
         self.src = src
@@ -88,6 +88,7 @@ class Seg:
         self.trunc = trunc
         self.blank_content = blank_content
         self.case = case
+        self.spec = spec  # format spec applied to the source value (None: str())
 
     def __repr__(self):
         if self.kind == "lit":
@@ -282,7 +283,33 @@ class Layout:
                     return self.slice(st, self.to_astr(st, base), lo, hi, node)
             return Opaque(f"subscript {U(node)}")
         if isinstance(node, (ast.List, ast.Tuple)):
-            return [self.ev(st, e) for e in node.elts]
+            out = []
+            for e in node.elts:
+                if isinstance(e, ast.Starred):
+                    v = self.ev(st, e.value)
+                    if not isinstance(v, list):
+                        return Opaque(f"unpacking of {U(e.value)}")
+                    out.extend(v)
+                else:
+                    out.append(self.ev(st, e))
+            return out
+        if isinstance(node, (ast.ListComp, ast.GeneratorExp)) and len(node.generators) == 1 and not node.generators[0].ifs \
+                and isinstance(node.generators[0].target, ast.Name):
+            # a comprehension over a literal sequence is the sequence of its element expressions
+            seq = self.ev(st, node.generators[0].iter)
+            if not isinstance(seq, list):
+                return Opaque(f"comprehension over {U(node.generators[0].iter)}")
+            var = node.generators[0].target.id
+            saved = st.env.get(var, _ValNode)
+            out = []
+            for item in seq:
+                st.env[var] = item
+                out.append(self.ev(st, node.elt))
+            if saved is _ValNode:
+                st.env.pop(var, None)
+            else:
+                st.env[var] = saved
+            return out
         if isinstance(node, ast.Attribute):
             return Opaque(f"attribute {U(node)}")
         if isinstance(node, ast.UnaryOp) and isinstance(node.op, ast.USub):
@@ -313,7 +340,7 @@ class Layout:
                 if same:
                     lo, hi = other.width()
                     seg = Seg("fld", src=(f2.src if f2 else "<lit>"), clo=lo, chi=hi, wlo=max(lo, pad.n), whi=max(hi, pad.n),
-                              align=align, case=f2.case if f2 else None)
+                              align=align, case=f2.case if f2 else None, spec=f2.spec if f2 else None)
                     if not other.segs:  # empty literal padded
                         seg = Seg("fld", src="<pad>", clo=pad.n, chi=pad.n, blank_content=True)
                     return AStr([seg])
@@ -340,7 +367,7 @@ class Layout:
                     for n in (lo, hi):
                         ws.append(len(format("x" * n, spec or "")))
             # fixed minimum width of the spec acts as padding
-            return AStr([Seg("fld", src=val.key, clo=min(ws), chi=max(ws), case=cases[0] if len(cases) == 1 else None)])
+            return AStr([Seg("fld", src=val.key, clo=min(ws), chi=max(ws), case=cases[0] if len(cases) == 1 else None, spec=spec)])
         if isinstance(val, (int, float, str)):
             return AStr.lit(format(val, spec))
         if isinstance(val, AStr) and spec == "":
@@ -405,6 +432,16 @@ class Layout:
             if isinstance(v, (Src, AStr)):
                 return LenOf(v)
             return Opaque("len of " + repr(v))
+        if isinstance(f, ast.Attribute) and f.attr == "join" and len(args) == 1 and not node.keywords:
+            sep, parts = self.ev(st, f.value), self.ev(st, args[0])
+            if isinstance(sep, str) and isinstance(parts, list):
+                out = AStr()
+                for i, part in enumerate(parts):
+                    if i and sep:
+                        out = out + AStr.lit(sep)
+                    out = out + self.to_astr(st, part, node)
+                return out
+            return Opaque(f"join {U(node)[:40]}")
         meth = None
         if name in ("str.ljust", "str.rjust", "str.center") and len(args) >= 2:
             meth, base, n = name.split(".")[1], self.ev(st, args[0]), try_fold(args[1], self.consts)
@@ -418,7 +455,7 @@ class Layout:
             fsrc = s.single_field()
             seg = Seg("fld", src=fsrc.src if fsrc else ("<lit>" if s.segs else "<pad>"), clo=lo, chi=hi, wlo=max(lo, n),
                       whi=max(hi, n), align="l" if meth == "ljust" else "r", case=fsrc.case if fsrc else None,
-                      trunc=fsrc.trunc if fsrc else False, blank_content=not s.segs)
+                      trunc=fsrc.trunc if fsrc else False, blank_content=not s.segs, spec=fsrc.spec if fsrc else None)
             return AStr([seg])
         if isinstance(f, ast.Attribute) and f.attr in ("strip", "lstrip", "rstrip", "upper", "lower"):
             base = self.ev(st, f.value)
